@@ -285,6 +285,75 @@ def sh_glob_struct(i, rnd):
     return d, ["GV%d.a = o%da()" % (i, i), "gv%d()" % i, "bt%d(GV%d.a)" % (i, i)], "string"
 
 
+def sh_closure_relay_twice(i, rnd):
+    """two captured variables relay the origin: x = y inside the closure, y assigned from the origin in the same closure"""
+    return "", ["var x, y string", "c := func() {\n\t\tx = y\n\t\ty = o%da()\n\t}" % i, "c()", "c()", "bt%d(x)" % i], "string"
+
+
+def sh_closure_relay_nested(i, rnd):
+    return "", ["var x, y string",
+                "outer := func() {\n\t\tinner := func() {\n\t\t\tx = y\n\t\t\ty = o%da()\n\t\t}\n\t\tinner()\n\t\tinner()\n\t}" % i,
+                "outer()", "bt%d(x)" % i], "string"
+
+
+def sh_closure_relay_returned(i, rnd):
+    d = ("func mkr%d() (func(), func() string) {\n\tvar x, y string\n\treturn func() {\n\t\t\tx = y\n\t\t\ty = o%da()\n\t\t}, "
+         "func() string { return x }\n}\n" % (i, i))
+    return d, ["c, get := mkr%d()" % i, "c()", "c()", "bt%d(get())" % i], "string"
+
+
+def sh_closure_relay_three(i, rnd):
+    """three captured variables, the closure called three times"""
+    return "", ["var x, y, z string", "c := func() {\n\t\tx = y\n\t\ty = z\n\t\tz = o%da()\n\t}" % i, "c()", "c()", "c()",
+                "bt%d(x)" % i], "string"
+
+
+# calls of functions WITH predefined summaries / dataflow contracts where several parameters flow to the same result
+def sh_std_replaceall(i, rnd):
+    return "", ["bt%d(strings.ReplaceAll(o%da()+\"-q\", \"q\", o%db()))" % (i, i, i)], "string"
+
+
+def sh_std_replaceall_first(i, rnd):
+    return "", ["bt%d(strings.ReplaceAll(o%da(), \"q\", \"r\"))" % (i, i)], "string"
+
+
+def sh_std_replace(i, rnd):
+    return "", ["bt%d(strings.Replace(o%da()+\"-q\", \"q\", o%db(), 1))" % (i, i, i)], "string"
+
+
+def sh_std_trimprefix(i, rnd):
+    return "", ["bt%d(strings.TrimPrefix(o%da(), o%db()))" % (i, i, i)], "string"
+
+
+def sh_std_join(i, rnd):
+    return "", ["bt%d(strings.Join([]string{o%da(), \"x\"}, o%db()))" % (i, i, i)], "string"
+
+
+def sh_std_sprintf(i, rnd):
+    if rnd(2) == 0:
+        return "", ["bt%d(fmt.Sprintf(\"%%s-%%s-%%s\", o%da(), o%db(), o%dc()))" % (i, i, i, i)], "string"
+    return "", ["bt%d(fmt.Sprintf(o%da()+\"%%s\", o%db()))" % (i, i, i)], "string"
+
+
+def sh_std_filepath_join(i, rnd):
+    return "", ["bt%d(filepath.Join(o%da(), \"m\", o%db()))" % (i, i, i)], "string"
+
+
+def sh_std_repeat(i, rnd):
+    return "", ["bt%d(strings.Repeat(o%da(), 2))" % (i, i)], "string"
+
+
+def sh_contract3(i, rnd):
+    """user function summarised by a dataflow contract (dataflows.json): all three parameters flow to the result"""
+    d = "// contract ext%d 3\nfunc ext%d(a, b, c string) string { return a + b + c }\n" % (i, i)
+    return d, ["bt%d(ext%d(o%da(), o%db(), o%dc()))" % (i, i, i, i, i)], "string"
+
+
+def sh_contract_append(i, rnd):
+    d = "// contract app%d 2\nfunc app%d(l []string, e string) []string { return append(l, e) }\n" % (i, i)
+    return d, ["l := app%d([]string{o%da()}, o%db())" % (i, i, i), "bt%d(l)" % i], "[]string"
+
+
 def sh_nested_closure(i, rnd):
     d = ("func h%d() string {\n\tz := \"z\"\n\ty := o%da()\n\tc2 := func() string { return z + y }\n\treturn c2()\n}\n" % (i, i))
     return d, ["x := \"\"", "c1 := func() { x = h%d() }" % i, "c1()", "bt%d(x)" % i], "string"
@@ -307,6 +376,12 @@ SHAPES = collections.OrderedDict([
     ("glob-2w-self", sh_glob_2w_self), ("glob-2w-self-after", sh_glob_2w_self_after), ("glob-2w-concat", sh_glob_2w_concat),
     ("glob-3w", sh_glob_3w), ("glob-2w-other", sh_glob_2w_other), ("glob-reader-helper", sh_glob_reader_helper),
     ("glob-struct", sh_glob_struct),
+    ("closure-relay-twice", sh_closure_relay_twice), ("closure-relay-nested", sh_closure_relay_nested),
+    ("closure-relay-returned", sh_closure_relay_returned), ("closure-relay-three", sh_closure_relay_three),
+    ("std-replaceall", sh_std_replaceall), ("std-replaceall-first", sh_std_replaceall_first), ("std-replace", sh_std_replace),
+    ("std-trimprefix", sh_std_trimprefix), ("std-join", sh_std_join), ("std-sprintf", sh_std_sprintf),
+    ("std-filepath-join", sh_std_filepath_join), ("std-repeat", sh_std_repeat), ("contract3", sh_contract3),
+    ("contract-append", sh_contract_append),
 ])
 
 # stable keys of the failing input classes (known_findings.txt)
@@ -317,6 +392,7 @@ PRELUDE = """package main
 import (
 	"fmt"
 	"os"
+	"path/filepath"
 	"reflect"
 	"strings"
 	"sync"
@@ -326,6 +402,7 @@ import (
 var mu sync.Mutex
 var _ = strings.ToUpper
 var _ = os.Args
+var _ = filepath.Join
 var hits = map[string]bool{}
 
 func walk(v reflect.Value, d int, f func(string)) {
@@ -357,17 +434,17 @@ func walk(v reflect.Value, d int, f func(string)) {
 
 var markerRe = []string{}
 
-func hit(i int, j int, v interface{}) {
-	walk(reflect.ValueOf(v), 0, func(s string) {
-		up := strings.ToUpper(s)
-		for _, m := range markerRe {
-			if strings.Contains(up, m) {
-				mu.Lock()
-				hits[fmt.Sprintf("HIT %d %d %s", i, j, m)] = true
-				mu.Unlock()
-			}
+// every scenario has its own hit<i> (a shared one would connect all backtrace points with nillable parameters through
+// the parameter of the shared function, which multiplies the size of every traversal)
+func note(i int, j int, s string) {
+	up := strings.ToUpper(s)
+	for _, m := range markerRe {
+		if strings.Contains(up, m) {
+			mu.Lock()
+			hits[fmt.Sprintf("HIT %d %d %s", i, j, m)] = true
+			mu.Unlock()
 		}
-	})
+	}
 }
 """
 
@@ -388,7 +465,8 @@ def gen_program(seed, nscen, pkg, shapes=None):
         decls, body, ptypes = table[name](i, rnd)
         pts = ptypes.split(",")
         params = ", ".join("x%d %s" % (j, t) for j, t in enumerate(pts))
-        hitl = "; ".join("hit(%d, %d, x%d)" % (i, j, j) for j in range(len(pts)))
+        hitl = "; ".join("hit%d(%d, x%d)" % (i, j, j) for j in range(len(pts)))
+        src.append("func hit%d(j int, v interface{}) {\n\twalk(reflect.ValueOf(v), 0, func(s string) { note(%d, j, s) })\n}" % (i, i))
         src.append('func o%da() string { return "M%dA" }\nfunc o%db() string { return "M%dB" }\nfunc o%dc() string { return "M%dC" }'
                    % (i, i, i, i, i, i))
         src.append("func bt%d(%s) { %s }" % (i, params, hitl))
@@ -414,9 +492,22 @@ taint-tracking-problems:
     sinks:
       - package: "%(pkg)s"
         method: "^bt[0-9]+$"
+dataflow-specs:
+  - "dataflows.json"
 options:
   log-level: 1
 """
+
+
+def contracts_json(src, pkg):
+    """dataflow contracts for the functions marked `// contract <name> <n>`: every parameter flows to the result"""
+    methods = []
+    for m in re.finditer(r"// contract (\w+) (\d+)", src):
+        n = int(m.group(2))
+        methods.append('"%s": { "Args": [ %s ], "Rets": [ %s ] }' % (
+            m.group(1), ", ".join("[ %d ]" % k for k in range(n)), ", ".join("[ 0 ]" for _ in range(n))))
+    return '[ { "ObjectPath": "%s", "Methods": { %s } } ]\n' % (pkg, ", ".join(methods))
+
 
 
 # ---------------------------------------------------------------------------------- dump / model output parsing
@@ -477,9 +568,19 @@ def trace_nodes(traces):
 # ---------------------------------------------------------------------------------- the check
 def run(chk):
     tier = chk.tier
+    import time as _time
+    _t = [_time.time()]
+    phases = {}
+
+    def lap(name):
+        phases[name] = round(_time.time() - _t[0], 1)
+        _t[0] = _time.time()
     failed = chk.prove("theories/Properties/C03.v")
+    lap("prove")
     vlib.build_harness(["c03dump"])
+    lap("go_build")
     model = vlib.build_model("c03")
+    lap("model_build")
     work = os.path.join(vlib.BUILD, "c03")
     shutil.rmtree(work, ignore_errors=True)
     os.makedirs(work)
@@ -495,7 +596,7 @@ def run(chk):
 
     # ---- generated scenario programs
     nprog = 1 if tier == "quick" else 5
-    nscen = 52 if tier == "quick" else 70
+    nscen = 64 if tier == "quick" else 80
     gens = []
     isolated = []
     for k in range(nprog):
@@ -506,6 +607,7 @@ def run(chk):
         open(os.path.join(d, "go.mod"), "w").write("module %s\n\ngo 1.22\n" % pkg)
         open(os.path.join(d, "main.go"), "w").write(src)
         open(os.path.join(d, "config.yaml"), "w").write(CONFIG % {"pkg": pkg})
+        open(os.path.join(d, "dataflows.json"), "w").write(contracts_json(src, pkg))
         gens.append((d, scen))
     for k, name in enumerate(ISOLATED):
         pkg = "c03iso%d" % k
@@ -515,6 +617,7 @@ def run(chk):
         open(os.path.join(d, "go.mod"), "w").write("module %s\n\ngo 1.22\n" % pkg)
         open(os.path.join(d, "main.go"), "w").write(src)
         open(os.path.join(d, "config.yaml"), "w").write(CONFIG % {"pkg": pkg})
+        open(os.path.join(d, "dataflows.json"), "w").write(contracts_json(src, pkg))
         gens.append((d, scen))
         isolated.append(d)
 
@@ -588,7 +691,7 @@ def run(chk):
                 for n in tr.split(","):
                     f.write("  %s %s\n" % (n, isec["N"].get(n, ("?", "?"))[1]))
                 f.write("re-run: build/bin/c03dump -both %s | build/bin/c03model | grep '^W'\n" % d)
-            for fn in ("main.go", "config.yaml", "go.mod"):
+            for fn in ("main.go", "config.yaml", "go.mod", "dataflows.json"):
                 if os.path.exists(os.path.join(d, fn)) and d.startswith(work):
                     shutil.copy(os.path.join(d, fn), rd)
             if chk.violation(key, "reported trace is not well-formed in %s (%s)" % (d, isec["mode"]), rd):
@@ -623,6 +726,7 @@ def run(chk):
     if iso_job is not None:
         i2, m2 = iso_job.result()
         isecs, msecs = isecs + i2, msecs + m2
+    lap("analyse_generated")
     bydir = collections.defaultdict(dict)
     for s, m in zip(isecs, msecs):
         bydir[s["dir"]][s["mode"]] = (s, m)
@@ -685,7 +789,7 @@ def run(chk):
                     shape = scen[1][1]
                 key = "panic:%s" % (shape or "unknown")
                 rd = chk.replay_dir(key + mode)
-                for fn in ("main.go", "config.yaml", "go.mod"):
+                for fn in ("main.go", "config.yaml", "go.mod", "dataflows.json"):
                     shutil.copy(os.path.join(d, fn), rd)
                 with open(os.path.join(rd, "replay.txt"), "w") as f:
                     f.write("backtrace.Analyze panics on this program (%s): %s\nno trace is reported for any backtrace point, although "
@@ -725,7 +829,7 @@ def run(chk):
                         continue
                     key = MISS_KEYS.get(name, "miss:%s" % name)
                     rd = chk.replay_dir(key + mode)
-                    for fn in ("main.go", "config.yaml", "go.mod"):
+                    for fn in ("main.go", "config.yaml", "go.mod", "dataflows.json"):
                         shutil.copy(os.path.join(d, fn), rd)
                     fwd = ("o%d%s" % (i, mk[-1].lower()), "bt%d" % i) in taint_pairs if mk.startswith("M") else None
                     other = "ondemand" if mode == "eager" else "eager"
@@ -781,8 +885,10 @@ def run(chk):
                         mode_diffs.append("%s: ondemand-only %s" % (names.get(k[0]), sorted(o_ - e_)))
 
     # ---- 2. repository testdata: tie + certificate + spec statistics
+    lap("judge_generated")
     if corpus_job is not None:
         isecs, msecs = corpus_job.result()
+        lap("wait_corpus")
         for isec, msec in zip(isecs, msecs):
             if isec["mode"] not in ("eager", "ondemand"):
                 continue
@@ -819,6 +925,7 @@ def run(chk):
     stats["tie_disagreements"] = len(tie_broken)
     chk.cov["distribution"] = dict(stats)
     chk.cov["shapes"] = dict(shape_dist)
+    chk.cov["phase_seconds"] = phases
     chk.cov["eager_vs_ondemand_origin_differences"] = mode_diffs[:40]
     if variants:
         chk.notes.append("runs in sync only with model variant(s) other than fix_tuple=1 fix_ctrace=1: %s" % sorted(variants))
